@@ -25,11 +25,29 @@ fn case_for(seed: u64, idx: u64, max_n: usize) -> Case {
     )
 }
 
+fn fresh<T: Send>(f: impl FnOnce() -> T + Send) -> T {
+    std::thread::scope(|s| {
+        std::thread::Builder::new().stack_size(64 << 20).spawn_scoped(s, f).expect("spawn").join().expect("reference thread panicked")
+    })
+}
+
+thread_local! {
+    /// Local pools live as long as the process, like the pools of a real
+    /// application: their worker threads (and anything hanging on them) persist
+    /// between calls.
+    static POOLS: std::cell::RefCell<BTreeMap<usize, std::rc::Rc<rayon::ThreadPool>>> = std::cell::RefCell::new(BTreeMap::new());
+}
+
 fn run_real_in_pool(case: &Case, op: OpKind, threads: usize) -> Outcome {
     if threads == 0 {
         return s_real::run_op(case, op);
     }
-    let pool = rayon::ThreadPoolBuilder::new().num_threads(threads).build().expect("pool");
+    let pool = POOLS.with(|p| {
+        p.borrow_mut()
+            .entry(threads)
+            .or_insert_with(|| std::rc::Rc::new(rayon::ThreadPoolBuilder::new().num_threads(threads).build().expect("pool")))
+            .clone()
+    });
     pool.install(|| s_real::run_op(case, op))
 }
 
@@ -67,6 +85,8 @@ pub fn cmd_e3(args: &Args) -> i32 {
         .split(',')
         .filter_map(|s| s.parse().ok())
         .collect();
+    let seq_only = args.flag("seq-only");
+    let _ = std::fs::create_dir_all(&out);
     let t0 = Instant::now();
     let mut evals = 0u64;
     let mut cases = 0u64;
@@ -78,10 +98,24 @@ pub fn cmd_e3(args: &Args) -> i32 {
             break;
         }
         let idx = start + k * stride;
-        let case = case_for(seed, idx, max_n);
+        let base = case_for(seed, idx, max_n);
         cases += 1;
-        for op in ALL_OPS {
-            let r = s_seq::run_op(&case, *op);
+        let _ = std::fs::write(format!("{}/e3_shard_{}.progress", out, shard), format!("{}\n", idx));
+        // a long-lived process calls the library with related inputs on the same
+        // worker threads: base, a derived input, base again
+        let mut vr = Rng::new(mix(seed, idx, 0xE3A));
+        let variant = vcore::case::derive_variant(&mut vr, &base);
+        let seq: Vec<&Case> = vec![&base, &variant, &base];
+        for (step, case) in seq.into_iter().enumerate() {
+            if step > 0 && idx % 2 == 1 {
+                break;
+            }
+            let case = case.clone();
+            for op in ALL_OPS {
+            let r = fresh(|| s_seq::run_op(&case, *op));
+            if seq_only {
+                continue;
+            }
             for &t in &pools {
                 // twice: repeated calls in one process must agree too
                 for _rep in 0..2 {
@@ -109,6 +143,7 @@ pub fn cmd_e3(args: &Args) -> i32 {
                         break 'outer;
                     }
                 }
+            }
             }
         }
     }
